@@ -82,6 +82,11 @@ CHECKS = {
             "2-4 same-class inputs (points, curves, surfaces, drape models) with arbitrary vertex counts, cells over arbitrary vertex subsets in arbitrary order (trailing unreferenced vertices frequent by construction) and data sets present on some inputs only are merged; vertices must be the concatenation, every merged cell must join the coordinates of its input cell, data are concatenated with no-data fill, inputs stay unchanged.",
             "Numeric data kinds only (the merger skips text); drape inputs have >=2 prisms; ghost prisms of drape models follow merging/drape_model.py and only non-ghost content is compared.",
             "DESIGN.md 3/C16"),
+    "C20": ("survey", "exploration",
+            "exhaustive (pair, linking direction) grid + Hypothesis operation programs; invariants over API metadata of both sides, raw Metadata JSON of both stored nodes (plain h5py) and partner identity after re-open; copy oracle",
+            "Every receiver/transmitter, receiver/base-station and potential/current pair is linked from either side and driven by generated edits of shared parameters through either side, copies (plain, cross-workspace, copy of a copy, by extent) and re-opens; both stored nodes and both API views must carry both identifiers and agree on every shared field, partners must resolve to each other after re-open, copies must be linked to each other and not to the originals (large-loop / DC: the copied transmitter side holds exactly what the copied receivers refer to).",
+            "'Property groups' (component groups, resolved by name on the entity that owns the data) is compared in the stored JSON only; MT receivers have no partner and appear only as unlinked control in C12.",
+            "DESIGN.md 3/C20"),
 }
 
 NOT_APPLICABLE = {}
@@ -126,6 +131,8 @@ def main():
         "engines": [
             {"name": "tree", "path": "vp/engines/tree.py", "serves_properties": ["C01", "C02", "C05", "C06", "C09", "C12"],
              "kind_free_text": "Hypothesis strategy for operation programs + interpreter with reference model over groups/objects/data/property groups"},
+            {"name": "survey", "path": "vp/props/c20.py", "serves_properties": ["C20"],
+             "kind_free_text": "survey pair builders, edit/copy/re-open programs, two-sided metadata invariants"},
             {"name": "spatial", "path": "vp/engines/spatial.py", "serves_properties": ["C13", "C16"],
              "kind_free_text": "lattice geometry builders, closed-box reference, merge oracle"},
             {"name": "faults", "path": "vp/props/c19.py", "serves_properties": ["C19"],
